@@ -19,6 +19,7 @@
 #include <kernel/solver/scale_precond.hpp>
 #include <kernel/solver/diagonal_precond.hpp>
 #include <kernel/solver/matrix_precond.hpp>
+#include <kernel/util/property_map.hpp>
 
 #include <cstring>
 #include <limits>
@@ -282,6 +283,42 @@ namespace c08
       default: break;
       }
     }
+    /// alternative configuration paths: 1 = PropertyMap section constructor (omega / fill_in_param / m as strings),
+    /// 2 = ILU: constructed with fill level 0 and configured by set_fill_in_param. Returns false if the kind has no such path.
+    bool rebuild(int path)
+    {
+      const PCfg& p = orc.cfg;
+      if(path == 2)
+      {
+        if(p.kind != K_ILU || p.ip <= 0) return false; // the setter asserts p > 0
+        auto q = Solver::new_ilu_precond(PreferredBackend::generic, mat, filter, 0);
+        q->set_fill_in_param(p.ip);
+        prec = q;
+        return true;
+      }
+      PropertyMap pm;
+      char b[64]; snprintf(b, sizeof b, "%.17g", p.omega);
+      const String sec("verif");
+      switch(p.kind)
+      {
+      case K_JACOBI: pm.add_entry("omega", b); prec = Solver::new_jacobi_precond(sec, &pm, mat, filter); return true;
+#ifdef VERIF_C08_SOR_PM // the PropertyMap constructors of SORPrecond/SSORPrecond do not compile on the pinned tree (proposed fix C08-sor-ssor-propertymap-ctor.patch)
+      case K_SOR: pm.add_entry("omega", b); prec = Solver::new_sor_precond(sec, &pm, PreferredBackend::generic, mat, filter); return true;
+      case K_SSOR: pm.add_entry("omega", b); prec = Solver::new_ssor_precond(sec, &pm, PreferredBackend::generic, mat, filter); return true;
+#endif
+      case K_ILU: pm.add_entry("fill_in_param", std::to_string(p.ip)); prec = Solver::new_ilu_precond(sec, &pm, PreferredBackend::generic, mat, filter); return true;
+      default: return rebuild_scalar(pm, b, std::integral_constant<bool, bs == 1>());
+      }
+    }
+    bool rebuild_scalar(PropertyMap&, const char*, std::false_type) { return false; }
+    bool rebuild_scalar(PropertyMap& pm, const char* b, std::true_type)
+    {
+      const PCfg& p = orc.cfg;
+      const String sec("verif");
+      if(p.kind == K_POLY) { pm.add_entry("omega", b); pm.add_entry("m", std::to_string(p.ip)); prec = Solver::new_polynomial_precond(sec, &pm, mat, filter); return true; }
+      if(p.kind == K_SCALE) { pm.add_entry("omega", b); prec = Solver::new_scale_precond(sec, &pm, filter); return true; }
+      return false;
+    }
     /// re-invocation of the parameter setter on the existing object
     void set_omega(double w) { set_omega_impl(w, std::integral_constant<bool, bs == 1>()); }
     void set_omega_impl(double w, std::true_type)
@@ -390,6 +427,42 @@ namespace c08
   const char* const LNAME[] = {"init_symbolic", "init_numeric", "apply", "update_diagonal_values", "update_all_values", "done_numeric", "done_symbolic", "set_omega(toggle)"};
 
   inline std::string hist_str(const std::vector<uint8_t>& h) { std::string s; for(auto o : h) { if(!s.empty()) s += ' '; s += LNAME[o]; } return s; }
+
+  // ------------------------------------------------------------------------------------------ ILU core: transposed solves (scalar core only)
+  template<typename BoxT> void check_ilu_transposed(verif::Ctx&, BoxT&, const Oracle&, const std::string&, const LVec&, std::false_type) {}
+  template<typename BoxT>
+  void check_ilu_transposed(verif::Ctx& c, BoxT& box, const Oracle& orc, const std::string& where, const LVec& d, std::true_type)
+  {
+    typedef typename BoxT::Mat Mat;
+    auto* q = static_cast<Solver::ILUPrecond<Mat, typename std::remove_reference<decltype(box.filter)>::type>*>(box.prec.get());
+    auto* w = dynamic_cast<Solver::ILUPrecondWithBackend<PreferredBackend::generic, Mat, typename std::remove_reference<decltype(box.filter)>::type>*>(q->_impl.get());
+    if(!w) return;
+    const int n = orc.n;
+    // reference: M = (I+L)(D+U) from the reference factorisation; solve M^T x = d densely
+    const RefILU& r = orc.ilu[0];
+    std::vector<LD> M(size_t(n) * n, 0.0L), Mt(size_t(n) * n), inv;
+    for(int i = 0; i < n; ++i) for(int j = 0; j < n; ++j)
+    {
+      LD sum = 0;
+      for(int k = 0; k <= std::min(i, j); ++k)
+      {
+        const LD l = (k == i) ? 1.0L : (r.in(i, k) ? r.f[size_t(i) * n + k][0] : 0.0L);
+        const LD u = r.in(k, j) ? r.f[size_t(k) * n + j][0] : 0.0L;
+        sum += l * u;
+      }
+      M[size_t(i) * n + j] = sum;
+    }
+    for(int i = 0; i < n; ++i) for(int j = 0; j < n; ++j) Mt[size_t(i) * n + j] = M[size_t(j) * n + i];
+    if(!dense_inverse(n, Mt, inv)) return;
+    LVec ref(n, 0.0L); for(int i = 0; i < n; ++i) { LD t = 0; for(int j = 0; j < n; ++j) t += inv[size_t(i) * n + j] * d[j]; ref[i] = t; }
+    std::vector<double> b(n), y(n, std::nan("")), x(n);
+    for(int i = 0; i < n; ++i) b[i] = double(d[i]);
+    w->_ilu.solve_dut(y.data(), b.data());     // separate output array
+    x = y; w->_ilu.solve_ilt(x.data(), x.data()); // in place (documented: x and b may be the same array)
+    std::string why;
+    chk(c, close(x, ref, false, 1e-11L, why), "precond.ilu-transposed-solves scalar", [&]{ return where + ": solve_dut/solve_ilt: " + why; });
+    c.count("ilu_transposed_solves");
+  }
 
   // ------------------------------------------------------------------------------------------ one case
   template<int bs, typename Filter>
@@ -530,7 +603,24 @@ namespace c08
           }
         }
       }
+      // the documented solver name
+      chk(c, std::string(box.prec->name()) == KNAME[cfg.kind], "precond.name " + kname, [&]{ return where + ": name() = " + std::string(box.prec->name()); });
+      // ILU: the transposed triangular solves of the factorisation core ( (D+U)^T y = d, (I+L)^T x = y  <=>  x = ((I+L)(D+U))^-T d )
+      if(cfg.kind == K_ILU) check_ilu_transposed(c, box, orc, where, inputs.back(), std::integral_constant<bool, bs == 1>());
       box.prec->done();
+      // alternative configuration paths give the same preconditioner: PropertyMap section constructor, ILU::set_fill_in_param
+      for(int path = 1; path <= 2; ++path)
+      {
+        Box<bs, Filter> b2(orc);
+        if(!b2.rebuild(path)) continue;
+        b2.prec->init();
+        Status st; bool unch;
+        std::vector<double> out = b2.apply(inputs.back(), NaN, st, unch);
+        chk(c, std::memcmp(out.data(), outs.back().data(), sizeof(double) * size_t(N)) == 0, std::string("precond.configuration-path ") + (path == 1 ? "PropertyMap " : "set_fill_in_param ") + kname,
+          [&]{ return where + ": differs from the object configured by constructor arguments"; });
+        b2.prec->done();
+        c.count("configuration_path_objects");
+      }
     }
 
     // ---------------------------------------------------------------- life-cycle histories (E3)
